@@ -440,6 +440,9 @@ def derivation_scenarios(prog, chk, pid, tier):
 
 
 def run(prog, chk, tier):
+    from rules import state as _state
+
+    _state.library_state_rules(prog, chk, "C11")
     chk.explanation = ("Per-operation facts from which history independence composes: set_config removes the component found by the TYPE=03 search before appending the new "
                        "one as its last mutation; the KeyError-swallowing handler can only be reached by the explicit not-found raise (any implicit KeyError source inside the "
                        "try body -- typed by shape inference -- is a finding); each derived comment key is stored on one path and removed on the complementary path, with "
